@@ -724,6 +724,21 @@ func (g *G) wTimeColumn(w *W, n int, hw int) {
 			}
 		case 3:
 			w.f64(f64b(float64(1_700_000_000*unit) + float64(g.r.Intn(1000))))
+		case 4, 5:
+			// float epoch with a fractional part (time.time()-style), either sign, f64 or f32
+			fr := vh.Pick(g.r, []float64{0.5, 0.75, 0.25, 0.999999, 1e-9, 0.001})
+			v := float64((1_700_000_000+int64(g.r.Intn(100000)))*vh.Pick(g.r, []int64{1, 1, 1000, 1000, 1_000_000})) + fr
+			if g.r.Chance(15) {
+				v = -v
+			}
+			if g.r.Chance(15) {
+				v = vh.Pick(g.r, []float64{1e10, 1e13, 9999999999, 9999999999999, 0, 1}) + fr*float64(1-2*g.r.Intn(2))
+			}
+			if g.r.Chance(20) {
+				w.f32(f32b(float32(float64(g.r.Intn(1<<20)) + fr)))
+			} else {
+				w.f64(f64b(v))
+			}
 		default:
 			v := (1_700_000_000 + int64(g.r.Intn(100000))) * unit
 			w.intW(v, vh.Pick(g.r, intWidths(v)))
@@ -1637,6 +1652,102 @@ func shadowedDup(b []byte) bool {
 	return false
 }
 
+// columns of "ok[C{m=.. n=.. c1;c2;..}sig=.. raw=..]" as name -> text
+func colMap(obs string) map[string]string {
+	i := strings.Index(obs, " n=")
+	j := strings.LastIndex(obs, "}")
+	if i < 0 || j < i {
+		return nil
+	}
+	rest := obs[i+1 : j]
+	k := strings.Index(rest, " ")
+	if k < 0 {
+		return nil
+	}
+	m := map[string]string{"#head": obs[:i] + rest[:k] + obs[j:]}
+	for _, col := range strings.Split(rest[k+1:], ";") {
+		m[strings.SplitN(col, ":", 2)[0]] = col
+	}
+	return m
+}
+
+func onlyTimeDiffers(on, off string) bool {
+	a, b := colMap(on), colMap(off)
+	if a == nil || b == nil || len(a) != len(b) {
+		return false
+	}
+	diff := 0
+	for k, v := range a {
+		if b[k] != v {
+			if k != "74696d65" {
+				return false
+			}
+			diff++
+		}
+	}
+	return diff == 1
+}
+
+// timeHasFraction: some array under a "time" key of the top-level "columns" map holds a float32/64
+// element with a non-zero fractional part.
+func timeHasFraction(b []byte) bool {
+	n, p, kind, ok := hdr(b, 0)
+	if !ok || kind != 'm' {
+		return false
+	}
+	for i := 0; i < n; i++ {
+		kl, kp, kk, ok := hdr(b, p)
+		if !ok || kk != 's' || kp+kl > len(b) {
+			return false
+		}
+		key := string(b[kp : kp+kl])
+		p = kp + kl
+		if key == "columns" {
+			cn, cp, ck, ok := hdr(b, p)
+			for j := 0; ok && ck == 'm' && j < cn; j++ {
+				l, q, k2, ok2 := hdr(b, cp)
+				if !ok2 || k2 != 's' || q+l > len(b) {
+					break
+				}
+				name := string(b[q : q+l])
+				cp = q + l
+				if an, ap, ak, aok := hdr(b, cp); aok && ak == 'a' && name == "time" {
+					for e := 0; e < an && ap < len(b); e++ {
+						switch b[ap] {
+						case 0xcb:
+							if v, ok3 := beN(b, ap+1, 8); ok3 {
+								f := math.Float64frombits(uint64(v))
+								if f != math.Trunc(f) && !math.IsNaN(f) {
+									return true
+								}
+							}
+						case 0xca:
+							if v, ok3 := beN(b, ap+1, 4); ok3 {
+								f := float64(math.Float32frombits(uint32(v)))
+								if f != math.Trunc(f) && !math.IsNaN(f) {
+									return true
+								}
+							}
+						}
+						var ok4 bool
+						if ap, ok4 = skipVal(b, ap); !ok4 {
+							break
+						}
+					}
+				}
+				var ok5 bool
+				if cp, ok5 = skipVal(b, cp); !ok5 {
+					break
+				}
+			}
+		}
+		if p, ok = skipVal(b, p); !ok {
+			return false
+		}
+	}
+	return false
+}
+
 // classify attributes an ON/OFF difference to a root cause where one is recognised (stable keys).
 func classify(on, off string, body []byte) (string, string) {
 	aOn, aOff := accepted(on), accepted(off)
@@ -1658,6 +1769,12 @@ func classify(on, off string, body []byte) (string, string) {
 	case !aOn && aOff:
 		return "accept-differs:typed-rejects:generic-accepts", "flag ON rejects a body that flag OFF accepts"
 	case aOn && aOff:
+		if onlyTimeDiffers(on, off) {
+			if timeHasFraction(body) {
+				return "typed-generic-differ:time-float-fraction", "client-supplied time column stored differently with the flag on/off; the column has float elements with a fractional part (truncation before vs after unit scaling)"
+			}
+			return "typed-generic-differ:time-column-values", "client-supplied time column stored differently with the flag on/off"
+		}
 		if colNamesOf(on) != colNamesOf(off) {
 			return "stored-differs:column-set", "stored column set differs"
 		}
@@ -1792,6 +1909,28 @@ func (r *runner) edgeGrid() {
 			w.str("v")
 			w.raw(s)
 		}), "edge")
+	}
+	// time columns with fractional float epochs (seconds / milliseconds / at every unit boundary, either
+	// sign, f64 and f32), alone and mixed with ints in either order
+	{
+		var fl [][]byte
+		for _, basev := range []float64{1.7e9, 1.7e12, 1.7e15, 1.7e18, 1e10, 1e13, 1e16, 9999999999, 9999999999999, 0, 1, 86400, 1 << 20} {
+			for _, fr := range []float64{0.5, 0.75, 0.999999, 1e-9, -0.5, -0.75, 0.25} {
+				for _, sg := range []float64{1, -1} {
+					fl = append(fl, mk(func(w *W) { w.f64(f64b(sg * (basev + fr))) }))
+				}
+			}
+		}
+		for _, v := range []float32{1.5, 0.75, -0.5, 1048576.5, 8388607.5, 123456.75, -86400.25} {
+			fl = append(fl, mk(func(w *W) { w.f32(f32b(v)) }))
+		}
+		ints := [][]byte{H("ce6553f100"), H("cf0000018bcfe56800"), H("01"), H("d3fffffffffffffffe")}
+		for i, f := range fl {
+			r.run(columnar(1, func(w *W) { w.str("time"); w.arrH(1, 0); w.raw(f) }, 0, nil), "edge-time-frac")
+			it := ints[i%len(ints)]
+			r.run(columnar(2, func(w *W) { w.str("time"); w.arrH(2, 0); w.raw(it); w.raw(f); w.str("a"); w.arrH(2, 0); w.u8(1); w.u8(2) }, 0, nil), "edge-time-frac")
+			r.run(columnar(2, func(w *W) { w.str("a"); w.arrH(2, 0); w.u8(1); w.u8(2); w.str("time"); w.arrH(2, 0); w.raw(f); w.raw(it) }, 0, nil), "edge-time-frac")
+		}
 	}
 	// array header widths and allocation guards (all-nil columns at the limits; the two bodies at
 	// maxTypedPreallocElems / +1 are the only megabyte-sized ones)
